@@ -179,9 +179,35 @@ fn run_script(script: &Value, out: &mut Vec<Value>) {
     let tx = router.verif_link();
     let mut nets: HashMap<String, Net> = HashMap::new();
     let mut cids: HashMap<String, String> = HashMap::new();
+    // what a well-behaved client still has to answer, per net (filled by drains, used by the "react" op)
+    let mut todo: HashMap<String, std::collections::VecDeque<Value>> = HashMap::new();
     out.push(json!({"ev": "reset", "cfg": cfg, "consts": {"MAX_INFLIGHT": verif::MAX_INFLIGHT, "MAX_CHANNEL_CAPACITY": verif::MAX_CHANNEL_CAPACITY, "MAX_SCHEDULE_ITERATIONS": verif::MAX_SCHEDULE_ITERATIONS}}));
-    for st in script["steps"].as_array().unwrap() {
+    let mut queue: std::collections::VecDeque<Value> = script["steps"].as_array().unwrap().iter().cloned().collect();
+    while let Some(st) = queue.pop_front() {
+        let st = &st;
         let op = st["op"].as_str().unwrap();
+        if op == "idle" {
+            // let the router run until it has nothing to do (bounded), as ordinary event / consume steps
+            let budget = st["max"].as_u64().unwrap_or(400);
+            if budget > 0 && (router.verif_pending_events() > 0 || router.verif_ready_len() > 0) {
+                let next = if router.verif_pending_events() > 0 { "event" } else { "consume" };
+                queue.push_front(json!({"op": "idle", "max": budget - 1}));
+                queue.push_front(json!({"op": next}));
+            }
+            continue;
+        }
+        if op == "react" {
+            // answer up to `max` of the notifications received so far, oldest first, as ordinary push steps
+            let n = st["n"].as_str().unwrap_or("").to_string();
+            let max = st["max"].as_u64().unwrap_or(1);
+            let q = todo.entry(n.clone()).or_default();
+            let mut pushes = Vec::new();
+            for _ in 0..max {
+                match q.pop_front() { Some(pk) => pushes.push(json!({"op": "push", "n": n, "pk": pk})), None => break }
+            }
+            for p in pushes.into_iter().rev() { queue.push_front(p); }
+            continue;
+        }
         let n = st["n"].as_str().unwrap_or("").to_string();
         let mut rec = st.clone();
         rec["ev"] = json!(op);
@@ -225,6 +251,18 @@ fn run_script(script: &Value, out: &mut Vec<Value>) {
                             }
                         }
                         if unsched { let _ = lrx.ready(); }
+                        let q = todo.entry(n.clone()).or_default();
+                        let nomsg = json!({"m": 0, "topic": "none", "q": 0, "retain": false, "empty": false});
+                        for x in got.iter() {
+                            let reply = match (x["t"].as_str().unwrap_or(""), x["kind"].as_str().unwrap_or(""), x["q"].as_u64().unwrap_or(0)) {
+                                ("forward", _, 1) => Some("puback"),
+                                ("forward", _, 2) => Some("pubrec"),
+                                ("ack", "pubrel", _) => Some("pubcomp"),
+                                ("ack", "pubrec", _) => Some("pubrel"),
+                                _ => None,
+                            };
+                            if let Some(k) = reply { q.push_back(json!({"t": k, "id": x["id"], "msg": nomsg, "fs": []})); }
+                        }
                         json!({"r": "ok", "out": got, "ready": unsched, "closed": closed})
                     }
                     _ => json!({"r": "noop"}),
